@@ -114,7 +114,7 @@ class _Run:
     def new_faults(self):
         return self.db.injected[self.n_inj :]
 
-    def account_faults(self, ctxkind):
+    def account_faults(self, ctxkind, raised=False):
         """update ban rules from the faults consumed by the op that just ran.
         ctxkind: 'checkout' | 'conn-op' | 'raw-op' | 'raw-release' | 'conn-release' | 'other'"""
         nf = self.new_faults()
@@ -130,7 +130,8 @@ class _Run:
                 self.pool_wide(cid, "it is older than an InvalidatePoolError raised on checkout")
             elif site == "ev_checkout" and kind == "disconnect":
                 self.bans.ban(cid, "a checkout listener raised DisconnectionError for it")
-            elif ctxkind == "conn-op" and kind == "disconnect" and site != "connect":
+            elif ctxkind == "conn-op" and raised and kind == "disconnect" and site in ("cursor", "execute", "commit", "rollback"):
+                # a disconnect a Connection detects always surfaces from the op; close()/connect faults are the pool's business
                 self.pool_wide(cid, "it is older than a disconnect detected by a Connection (pool-wide invalidation)")
             elif ctxkind == "raw-release" and site in ("rollback", "commit", "ev_reset"):
                 self.bans.ban(cid, "its reset-on-return failed")
@@ -291,7 +292,7 @@ class _Run:
                 h.obj.exec_driver_sql(stmt)
         except (self.sa.exc.SQLAlchemyError, F.fakedb.Error) as e:
             label = self.surfaced(e, f"use({h.kind})")
-            self.account_faults("conn-op" if h.kind == "conn" else "raw-op")
+            self.account_faults("conn-op" if h.kind == "conn" else "raw-op", raised=True)
             if h.kind == "raw" and isinstance(e, F.fakedb.DisconnectError):
                 self.do_invalidate(h, False)  # what the docs require of raw users
             elif h.kind == "conn":
@@ -335,7 +336,7 @@ class _Run:
             getattr(h.obj, m)()
         except (self.sa.exc.SQLAlchemyError, F.fakedb.Error) as e:
             self.surfaced(e, f"Connection.{m}")
-            self.account_faults("conn-op")
+            self.account_faults("conn-op", raised=True)
             self.after_conn_op(h, m)
             if was_detached and h.obj.invalidated:
                 self.detached_leak_check(h, cid0, "on-invalidate")
